@@ -83,6 +83,30 @@ CHECKS["C14"] = dict(
     text="Every instance is decoded greedily alone and in every ordered sub-batch of size 2 and 3 (plus duplicates, plus (batch, num_starts) factorisations) by every bundled constructive policy on every environment it supports; actions, reward and log-likelihood must agree, float ties at the first differing step are skipped and counted; inference-time randomness is owned by the RNG seam (row-keyed answers).",
     ref="DESIGN.md section 4 C14",
 )
+CHECKS["C12"] = dict(
+    engine="E5 GridEnumerator + E3 ChoiceExplorer + E2 ProductExplorer",
+    technique="complete grid over (B, factors, nestings, ranks) for batchify/unbatchify/gather; start-node rules of every environment under every RNG answer within one deviation; policy multistart / multisample outputs re-executed row by row solo on instance r mod B",
+    text="Replication primitives are enumerated completely for B<=4, factors<=4 and all nestings with entries<=3; start nodes of every environment are judged for feasibility and distinctness on batches of alphabet instances where some nodes are infeasible first moves; every output row of multistart / multisample decoding (select_best on and off) is re-executed solo on its instance and best-selection is recomputed.",
+    ref="DESIGN.md section 4 C12",
+)
+CHECKS["C17"] = dict(
+    engine="E5 GridEnumerator + E3 ChoiceExplorer",
+    technique="complete grid over dataset class x N x batch size x extra key x field dtypes, with ALL N! answers of the shuffling randperm forced through the RNG seam; RolloutBaseline wrapping with a marker policy",
+    text="Every bundled dataset class (with/without extra key) is read back through DataLoader / RL4COLitModule loaders for every N<=5, every batch size 1..N+1 and every permutation the shuffler can draw; rollout-baseline values are recomputed per instance with a marker policy and must travel with their instance.",
+    ref="DESIGN.md section 4 C17",
+)
+CHECKS["C18"] = dict(
+    engine="E3 ChoiceExplorer + E1 EnvExplorer",
+    technique="deviation-bounded exhaustive enumeration of the RNG answers inside every generator's _generate over a configuration grid; documented-contract oracle; solvability by exhaustive env exploration of every generated small instance",
+    text="Each generator x configuration is executed under the default RNG answers and under every single (thorough: double) deviation over extreme/ramp/alternating answer patterns; outputs are judged against the documented keys/shapes/ranges and every generated instance of size<=5 is explored exhaustively for dead ends (larger ones with two extreme schedules and the env's checker).",
+    ref="DESIGN.md section 4 C18",
+)
+CHECKS["C20"] = dict(
+    engine="E4 OpSeqExplorer",
+    technique="breadth-first enumeration of ALL operation sequences up to a depth over a small batch / callback alphabet on fresh real objects against a Fraction/float64 reference model, compared after every step",
+    text="RewardScaler (all modes), ExponentialBaseline and WarmupBaseline are driven through every sequence of batches / eval / epoch_callback operations up to depth 3-6 from a small alphabet incl. constant and single-value batches; mean, sample std, output, EMA recurrence and warm-up weights are compared with an exact reference after every operation.",
+    ref="DESIGN.md section 4 C20",
+)
 
 NOT_YET = {}
 
